@@ -26,6 +26,9 @@ class Pipe(object):
         self.every = float(spec.get('drain_every', 1e-5))
         self.buf = bytearray()
         self.next_drain = None
+        self.kcap = self.cap
+        self.refs = []
+        self.segs = []          # [bytes, actor] in write order
         self.short_sends = 0
         self.sends = 0
         self.blocked = 0
@@ -38,21 +41,67 @@ class Pipe(object):
             k = min(self.drain, len(self.buf))
             chunk = bytes(self.buf[:k])
             del self.buf[:k]
-            link.device.cur_actor = 0
-            link.device.on_host_bytes(chunk, self.next_drain)
+            # deliver per writer segment so that the device can attribute each OPEN to the actor that wrote it
+            off = 0
+            while off < k:
+                seg = self.segs[0] if self.segs else [k - off, 0]
+                m = min(seg[0], k - off)
+                link.device.cur_actor = seg[1]
+                link.device.on_host_bytes(chunk[off:off + m], self.next_drain)
+                off += m
+                if self.segs:
+                    seg[0] -= m
+                    if seg[0] <= 0:
+                        self.segs.pop(0)
             link.bytes_written += k
             self.next_drain = self.next_drain + self.every if self.buf else None
+            if getattr(self, 'refs', None):
+                self.refill(now if self.next_drain is None else self.next_drain)
             if link.kick is not None:
                 link.kick()
 
     def room(self):
         return self.cap - len(self.buf)
 
+    # asyncio's selector transport sends what the kernel takes at once and queues the rest BY REFERENCE
+    # (CPython >= 3.12 keeps memoryviews of the caller's buffer); the bytes are copied only when they reach the kernel
+    def put_by_reference(self, data, now):
+        if not hasattr(self, 'refs'):
+            self.refs = []
+        mv = memoryview(data).cast('B') if not isinstance(data, bytes) else data
+        n = 0
+        if not self.refs:
+            n = self.put(bytes(mv[:max(0, self.kcap - len(self.buf))]), now) if self.kcap > len(self.buf) else 0
+        if n < len(mv):
+            self.refs.append(mv[n:])
+        return len(mv)
+
+    def refill(self, now):
+        """Move queued references into the kernel buffer as room frees (the copy happens now)."""
+        refs = getattr(self, 'refs', None)
+        while refs and self.kcap > len(self.buf):
+            mv = refs[0]
+            k = min(len(mv), self.kcap - len(self.buf))
+            self.buf += bytes(mv[:k])
+            if self.next_drain is None:
+                self.next_drain = now
+            if k < len(mv):
+                refs[0] = mv[k:]
+            else:
+                refs.pop(0)
+
+    def queued(self):
+        return len(self.buf) + sum(len(m) for m in getattr(self, 'refs', ()))
+
     def flush(self, now):
+        for mv in getattr(self, 'refs', ()):
+            self.buf += bytes(mv)
+        self.refs = []
         if self.buf:
             link = self.run.link
             chunk = bytes(self.buf)
             del self.buf[:]
+            self.segs = []
             link.device.on_host_bytes(chunk, now)
             link.bytes_written += len(chunk)
         self.next_drain = None
@@ -138,6 +187,17 @@ class SimSocket(object):
         actor = w.waiter.actor()
         data = bytes(data)
         idx, f = link.begin('w', len(data), self._timeout, actor)
+        nth = link.cfg.get('eagain_nth_write')
+        if nth is not None and f is None:
+            link.write_ordinal = getattr(link, 'write_ordinal', -1) + 1
+            if link.write_ordinal == nth and getattr(link, 'eagain_fired', None) is None:
+                f = {'kind': 'eagain'}
+                link.eagain_fired = idx
+                link.faults_fired.append((idx, 'eagain', 'w'))
+        if f is not None and f.get('kind') == 'eagain':
+            # spurious readiness: select() said writeable, send() still has no room
+            link._rec(idx, actor, 'w', len(data), self._timeout, 'BlockingIOError')
+            raise BlockingIOError(errno.EAGAIN, 'Resource temporarily unavailable (injected)')
         if f is not None and f.get('kind') != 'empty':
             try:
                 link.raise_fault(f, 'w', None)
@@ -149,6 +209,8 @@ class SimSocket(object):
         pipe.pump(w.clock.now)
         if self._timeout == 0.0:
             k = pipe.put(data, w.clock.now)
+            if k:
+                pipe.segs.append([k, actor])
             if k == 0 and data:
                 pipe.blocked += 1
                 link._rec(idx, actor, 'w', len(data), self._timeout, 'BlockingIOError')
@@ -163,7 +225,10 @@ class SimSocket(object):
         deadline = None if self._timeout is None else w.clock.now + self._timeout
         off = 0
         while off < len(data):
-            off += pipe.put(data[off:], w.clock.now)
+            k0 = pipe.put(data[off:], w.clock.now)
+            if k0:
+                pipe.segs.append([k0, actor])
+            off += k0
             pipe.pump(w.clock.now)
             if off >= len(data):
                 break
@@ -272,7 +337,9 @@ class TcpWorld(object):
         for s in rlist:
             if s.closed:
                 raise OSError(errno.EBADF, 'Bad file descriptor (simulated)')
-            if link.dead is not None or (link.cur is not None and link.trickle_next is None) or link.device.has_ready(now) or (link.trickle_next is not None and link.cur is not None and now >= link.trickle_next):
+            if link.dead is not None:
+                r.append(s)
+            elif link.readable_now():
                 r.append(s)
             elif link.device.stalled and link.device.stall.get('kind') == 'eof':
                 r.append(s)
@@ -349,6 +416,7 @@ class SimAioTransport(asyncio.Transport):
         run.sock = self.pipe
         self.high = int(spec.get('high_water', 64 * 1024))
         self.low = int(spec.get('low_water', self.high // 4))
+        self.pipe.kcap = self.pipe.cap    # the kernel's send buffer
         self.pipe.cap = 1 << 40          # asyncio buffers without bound; back-pressure is pause_writing
         self.closing = False
         self.closed = False
@@ -375,7 +443,7 @@ class SimAioTransport(asyncio.Transport):
             self.low = low
 
     def get_write_buffer_size(self):
-        return len(self.pipe.buf)
+        return self.pipe.queued()
 
     def get_write_buffer_limits(self):
         return (self.low, self.high)
@@ -386,7 +454,6 @@ class SimAioTransport(asyncio.Transport):
         link = self.run.link
         idx = link.ncalls
         link.ncalls += 1
-        data = bytes(data)
         link.writes += 1
         link._rec(idx, 0, 'w', len(data), None, len(data))
         if link.dead is not None:
@@ -398,9 +465,11 @@ class SimAioTransport(asyncio.Transport):
                 link.dead = f['kind']
                 self.loop.call_soon(self._lost, ConnectionResetError(104, 'Connection reset by peer (injected)') if f['kind'] == 'reset' else BrokenPipeError(32, 'Broken pipe (injected)'))
                 return
-        self.pipe.put(data, self.loop.time())
+        t = asyncio.current_task()
+        self.pipe.segs.append([len(data), getattr(t, 'sim_actor', 0) if t is not None else 0])
+        self.pipe.put_by_reference(data, self.loop.time())
         self.pipe.pump(self.loop.time())
-        if len(self.pipe.buf) > self.high and not self.paused_writing:
+        if self.pipe.queued() > self.high and not self.paused_writing:
             self.paused_writing = True
             self.pipe.paused += 1
             link.bp_pauses = getattr(link, 'bp_pauses', 0) + 1
@@ -457,8 +526,8 @@ class SimAioTransport(asyncio.Transport):
         link = self.run.link
         ts = [self.pipe.next_time()]
         if not self.paused_reading:
-            if link.cur is not None or link.device.has_ready(now):
-                ts.append(link.trickle_next if (link.trickle_next is not None and link.cur is not None) else now)
+            if link.readable_now():
+                ts.append(now)
             else:
                 ts.append(link.next_time())
         ts = [t for t in ts if t is not None]
@@ -474,7 +543,7 @@ class SimAioTransport(asyncio.Transport):
         now = self.loop.time()
         link = self.run.link
         self.pipe.pump(now)
-        if self.paused_writing and len(self.pipe.buf) <= self.low:
+        if self.paused_writing and self.pipe.queued() <= self.low:
             self.paused_writing = False
             self.protocol.resume_writing()
         if link.cur is None:
